@@ -4,7 +4,7 @@ let-bindings, pattern bindings, loop variables and collect-then-iterate collecti
 Two expressions denote the same datum of the derive input iff their terms are equal; e.g. the
 `field` of the second (emission) loop over a BTreeMap built in a first loop resolves to the
 `('elem', <first loop id>)` term of the field that was inserted."""
-from .syn import es, pat_s, path_s, ty_s
+from .syn import es, pat_s, pat_shape, path_s, ty_s
 
 TRANSPARENT_METHODS = {'as_ref', 'clone', 'as_deref', 'borrow', 'to_owned', 'as_mut', 'cloned', 'copied', 'as_str', 'into'}
 ITER_METHODS = {'iter', 'into_iter', 'iter_mut'}
@@ -131,6 +131,24 @@ class Terms:
                 return T(e['recv'])
             if m == 'unwrap' and not e['args']:
                 return ('unwrap', T(e['recv']))
+            # Option combinators are the `if let` they abbreviate: X.and_then(|p| B) = if let Some(p) = X { B } else { None }
+            if m in ('and_then', 'map') and len(e['args']) == 1 and e['args'][0]['k'] == 'Closure' and len(e['args'][0]['params']) == 1 \
+                    and e['args'][0]['params'][0]['k'] == 'Ident' and '_ctx_entry' in e['args'][0]:
+                clo = e['args'][0]
+                rt = T(e['recv'])
+                optional_src = isinstance(rt, tuple) and (rt[0] == 'iflet' or (rt[0] == 'mcall' and rt[2] in ('get', 'get_key_value', 'first', 'last', 'next', 'find', 'get_ident', 'get_mut')))
+                if m == 'and_then' or optional_src:
+                    body = clo['body']
+                    bt = self.block_value_term(body, depth + 1) if body['k'] == 'Block' else self.value_in_recorded_scope(body, depth + 1)
+                    if not (isinstance(bt, tuple) and bt[0] == 'opaque'):
+                        pname = clo['params'][0]['name']
+                        cp = ('cparam', clo['_ctx_entry']['id'], pname)
+                        if rt[0] == 'iflet' and rt[4] == ('None',) and rt[1].startswith('Some('):
+                            # associativity: (if let P1 = A { B } else { None }).and_then(|p| C)  =  if let P1 = A { B.and_then(|p| C) } else { None }
+                            inner = subst_term(bt, cp, ('some_of', rt[3]))
+                            return ('iflet', rt[1], rt[2], ('iflet', 'Some(_)', rt[3], inner if m == 'and_then' else ('Some', inner), ('None',)), ('None',))
+                        bt = subst_term(bt, cp, ('some_of', rt))
+                        return ('iflet', 'Some(_)', rt, bt if m == 'and_then' else ('Some', bt), ('None',))
             args = []
             for a in e['args']:
                 if a['k'] == 'Closure':
@@ -160,7 +178,7 @@ class Terms:
                     return ('format_ident', args[0]['lit'].get('v')) + tuple(T(a) for a in args[1:])
             if name == 'matches' and 'matches' in m:
                 mm = m['matches']
-                return ('matches', T(mm['expr']), pat_s(mm['pat']))
+                return ('matches', T(mm['expr']), pat_shape(mm['pat']))
             return ('macro', name) + tuple(T(a) for a in (m.get('args') or []))
         if k == 'If':
             c = e['cond']
@@ -170,13 +188,21 @@ class Terms:
                 el = e['else']
                 ev_ = self.block_value_term(el, depth + 1) if el['k'] == 'Block' else T(el)
             if c['k'] == 'Let':
-                return ('iflet', pat_s(c['pat']), T(c['expr']), tv, ev_)
+                return ('iflet', pat_shape(c['pat']), T(c['expr']), tv, ev_)
             return ('ite', T(c), tv, ev_)
         if k == 'Match':
             arms = []
             for a in e['arms']:
                 b = a['body']
-                arms.append((pat_s(a['pat']), self.block_value_term(b, depth + 1) if b['k'] == 'Block' else self.value_in_recorded_scope(b, depth + 1)))
+                arms.append((pat_shape(a['pat']), self.block_value_term(b, depth + 1) if b['k'] == 'Block' else self.value_in_recorded_scope(b, depth + 1)))
+            # canonical form of a two-way match: `match X { P => A, _ => B }` and `match X { Some(p) => A, None => B }` (either arm
+            # order) are the `if let P = X { A } else { B }` they abbreviate
+            if len(arms) == 2 and not any(a.get('guard') for a in e['arms']):
+                (p0, v0), (p1, v1) = arms
+                if p1 == '_' or (p1 == 'None' and p0.startswith('Some(')) or (p1.startswith('Err(_') and p0.startswith('Ok(')):
+                    return ('iflet', p0, T(e['expr']), v0, v1)
+                if p0 == 'None' and p1.startswith('Some('):
+                    return ('iflet', p1, T(e['expr']), v1, v0)
             return ('match', T(e['expr'])) + tuple(arms)
         if k == 'Block':
             return self.block_value_term(e, depth + 1)
@@ -400,3 +426,24 @@ def subterms(t):
         for x in t[1:]:
             if isinstance(x, tuple):
                 yield from subterms(x)
+
+
+def match_arms(t):
+    """(scrutinee, [(pattern text, value term)]) of a `match` term or of the `if let` a two-way match is canonicalised to; else None"""
+    if not isinstance(t, tuple) or not t:
+        return None
+    if t[0] == 'match':
+        return t[1], list(t[2:])
+    if t[0] == 'iflet':
+        p = t[1]
+        other = 'None' if p.startswith('Some(') else ('Err(_)' if p.startswith('Ok(') else '_')
+        return t[2], [(p, t[3]), (other, t[4])]
+    return None
+
+
+def subst_term(t, old, new):
+    if t == old:
+        return new
+    if isinstance(t, tuple):
+        return tuple(subst_term(x, old, new) for x in t)
+    return t
